@@ -79,32 +79,40 @@ def request (c : Cfg) (s : Sub) (l : Log) : Sub × Bool :=
 def sumOther (c : Cfg) (s : Sub) : Int :=
   ((names c).filter (fun g => decide (g ≠ baseName))).foldl (fun acc g => if s.needs g > 0 then acc + s.needs g else acc) 0
 
-/-- `safeSubmissionState.setResult` with `sct != nil` (`ok`) or `sct == nil`. `none` = the nil dereference of
-`sub.results[logURL].sct` when the log was never requested. The second component lists the cancel functions
-called. The loop over the log's non-base groups is rendered in closed form (Go iterates a map; group names are
-distinct). -/
+/-- the non-base groups of a log -/
+def nonBase (c : Cfg) (l : Log) : List Grp := (groupsOf c l).filter (fun g => decide (g ≠ baseName))
+
+/-- `setResult`, first loop (`for groupName := range sub.logToGroups[logURL]`, skipping the base group): the result is
+stored if some non-base group of the log still needs an SCT; every non-base group of the log is decremented.
+Rendered in closed form (Go iterates a map; group names are distinct). -/
+def afterNonBase (c : Cfg) (s : Sub) (l : Log) : Sub :=
+  { s with
+    needs := fun g => if g ∈ nonBase c l then s.needs g - 1 else s.needs g
+    results := if (nonBase c l).any (fun g => decide (s.needs g > 0)) then upd s.results l (some .sct) else s.results }
+
+/-- `setResult`, the base-group block. `none` = the nil dereference of `sub.results[logURL].sct` when the log was
+never requested. -/
+def afterBase (c : Cfg) (s1 : Sub) (l : Log) : Option Sub :=
+  if baseName ∈ groupsOf c l then
+    match s1.results l with
+    | none => none
+    | some r =>
+      if r = .sct then some { s1 with needs := upd s1.needs baseName (s1.needs baseName - 1) }
+      else if s1.needs baseName > 0 ∧ s1.needs baseName > sumOther c s1 then
+        some { s1 with results := upd s1.results l (some .sct), needs := upd s1.needs baseName (s1.needs baseName - 1) }
+      else some s1
+  else some s1
+
+/-- `setResult`, last loop: cancel every pending request no group waits for any more. Second component: the logs
+whose cancel function is called. -/
+def afterCancel (c : Cfg) (s2 : Sub) : Sub × List Log :=
+  ({ s2 with cancels := fun l' => s2.cancels l' && awaited c s2 l' },
+   (allLogs c).filter (fun l' => s2.cancels l' && !awaited c s2 l'))
+
+/-- `safeSubmissionState.setResult` with `sct != nil` (`ok`) or `sct == nil`. -/
 def setResult (c : Cfg) (s : Sub) (l : Log) (ok : Bool) : Option (Sub × List Log) :=
   if !ok then some ({ s with results := upd s.results l (some .err) }, [])
-  else
-    let gs := groupsOf c l
-    let nb := gs.filter (fun g => decide (g ≠ baseName))
-    let storeNB := nb.any (fun g => decide (s.needs g > 0))
-    let s1 : Sub := { s with
-      needs := fun g => if g ∈ nb then s.needs g - 1 else s.needs g
-      results := if storeNB then upd s.results l (some .sct) else s.results }
-    let s2? : Option Sub :=
-      if baseName ∈ gs then
-        match s1.results l with
-        | none => none
-        | some r =>
-          if r = .sct then some { s1 with needs := upd s1.needs baseName (s1.needs baseName - 1) }
-          else if s1.needs baseName > 0 ∧ s1.needs baseName > sumOther c s1 then
-            some { s1 with results := upd s1.results l (some .sct), needs := upd s1.needs baseName (s1.needs baseName - 1) }
-          else some s1
-      else some s1
-    s2?.map fun s2 =>
-      ({ s2 with cancels := fun l' => s2.cancels l' && awaited c s2 l' },
-       (allLogs c).filter (fun l' => s2.cancels l' && !awaited c s2 l'))
+  else (afterBase c (afterNonBase c s l) l).map (afterCancel c)
 
 /-- `safeSubmissionState.groupComplete` -/
 def complete (s : Sub) (g : Grp) : Bool := decide (s.needs g ≤ 0)
